@@ -207,3 +207,10 @@ func AliasBytes(b []byte) []byte { return b }
 var NowSec int64 = 1704103445 // 2024-01-01T10:04:05Z
 
 func Now() time.Time { return time.Unix(NowSec, 0) }
+
+// NativeTrace reports whether native replay was asked to show the program's own debug
+// output (VERIF_TRACE=1); always false under the engine.
+func NativeTrace() bool { return !IsSymbolic() && os.Getenv("VERIF_TRACE") != "" }
+
+// TraceWrite copies debug output of the code under test to the real stderr (native only).
+func TraceWrite(b []byte) { os.Stderr.Write(b) }
